@@ -356,29 +356,20 @@ func c04r4(r *R) {
 	}
 	ar := r.method("middleware", "BasicAuth", "AuthenticatedRequest")
 	const parsed = "(*middleware.BasicAuth).BasicAuth($0, $1)"
-	// decisionTable needs a single name per atom: handle the != spelling through normCond instead
-	ps, _ := enumPaths(ar, 64, 1)
-	var why []string
-	nTrue := 0
-	for _, p := range ps {
-		okc := p.holds(parsed + "#2")
-		u := p.holds("!(crypto/subtle.ConstantTimeCompare("+parsed+"#0, $2) != 1)") || p.holds("(crypto/subtle.ConstantTimeCompare("+parsed+"#0, $2) == 1)")
-		pw := p.holds("!(crypto/subtle.ConstantTimeCompare("+parsed+"#1, $3) != 1)") || p.holds("(crypto/subtle.ConstantTimeCompare("+parsed+"#1, $3) == 1)")
-		switch p.Ret[0] {
-		case "true":
-			nTrue++
-			if !(okc && u && pw) {
-				why = append(why, "returns true on ["+strings.Join(p.Conds, " ∧ ")+"]")
-			}
-		case "false":
-			if okc && u && pw {
-				why = append(why, "returns false although everything matched")
-			}
-		default:
-			why = append(why, "returns "+p.Ret[0])
-		}
+	mm, ok := decisionTable(ar, map[string]string{
+		parsed + "#2": "ok",
+		"(crypto/subtle.ConstantTimeCompare(" + parsed + "#0, $2) == 1)": "user",
+		"(crypto/subtle.ConstantTimeCompare(" + parsed + "#1, $3) == 1)": "pass",
+	}, 0, func(a map[string]bool) bool { return a["ok"] && a["user"] && a["pass"] })
+	switch {
+	case !ok:
+		r.undecided("BasicAuth.AuthenticatedRequest", ar.Pos(), strings.Join(mm, "; "))
+	case len(mm) > 0:
+		r.bad("BasicAuth.AuthenticatedRequest", ar.Pos(), "authenticated must mean: credentials parsed ∧ ConstantTimeCompare(user, expected) == 1 ∧ ConstantTimeCompare(pass, expected) == 1, on the full byte strings: "+strings.Join(mm, "; "))
+	default:
+		r.ok("BasicAuth.AuthenticatedRequest", ar.Pos(), "true ⇔ parsed ∧ both constant-time comparisons equal 1")
 	}
-	r.check(nTrue == 1 && len(why) == 0, "BasicAuth.AuthenticatedRequest", ar.Pos(), "true ⇔ parsed ∧ ConstantTimeCompare(user, expected)==1 ∧ ConstantTimeCompare(pass, expected)==1, on the full byte strings", strings.Join(why, "; "))
+	var ps []Path
 	// the header consulted is Proxy-Authorization
 	nb := r.fn("middleware", "NewProxyBasicAuth")
 	ps, _ = enumPaths(nb, 8, 1)
